@@ -24,7 +24,12 @@ Inductive link_case :=
        (gpl : list (Z * list nat))        (* Controller.GetPeerLinks for every peer of the universe *)
        (closed : list nat)                (* links whose Close was called at least once *)
 | Stream (univ : list link) (p : nat) (obs_dir_local obs_dir_remote obs_stream_peer obs_mlink_remote : Z)
-| Conc (univ : list link) (me : Z) (h : list action) (links : list (Z * nat)).
+| Conc (univ : list link) (me : Z) (h : list action) (links : list (Z * nat))
+(* bursts: the events of one phase are issued together from parallel goroutines
+   released by a barrier (incl. several reports for the SAME link object), the
+   phases one after the other with quiescence in between; both tables observed *)
+| Bursts (univ : list link) (me : Z) (phases : list (list action))
+         (links : list (Z * nat)) (by_peer : list (Z * list nat)).
 
 Fixpoint list_list_eqb (a b : list (list nat)) : bool :=
   match a, b with
@@ -68,6 +73,13 @@ Fixpoint splits {A} (l : list A) : list (list A * list A) :=
 Definition schedules (early : list action) : list (list action * list action) :=
   flat_map (fun p => map (fun q => (fst p, q)) (perms (snd p))) (splits early).
 
+(* every order of the lock regions inside each phase, phases in sequence *)
+Fixpoint orderings (phases : list (list action)) : list (list action) :=
+  match phases with
+  | [] => [[]]
+  | ph :: rest => flat_map (fun p => map (app p) (orderings rest)) (perms ph)
+  end.
+
 Definition link_agree (c : link_case) : bool :=
   match c with
   | Hist univ me startup early held h obs links by_peer gpl closed =>
@@ -91,4 +103,12 @@ Definition link_agree (c : link_case) : bool :=
          model's table for at least one ordering of the lock regions *)
       let U := univ_fn univ in
       existsb (fun h' => links_eqb (st_links (run U me h')) links) (perms h)
+  | Bursts univ me phases links by_peer =>
+      let U := univ_fn univ in
+      existsb (fun h' =>
+        let s := run U me h' in
+        links_eqb (st_links s) links
+        && Nat.eqb (length (st_by_peer s)) (length by_peer)
+        && forallb (fun e => nat_set_exact (peer_links (fst e) s) (snd e)) by_peer)
+        (orderings phases)
   end.
